@@ -1,6 +1,12 @@
 open Datatypes
 open Nat0
 
+(** val hd : 'a1 -> 'a1 list -> 'a1 **)
+
+let hd default = function
+| [] -> default
+| x :: _ -> x
+
 (** val tl : 'a1 list -> 'a1 list **)
 
 let tl = function
